@@ -108,6 +108,10 @@ def byte_search(ctx, ops, verdict_classes):
             if rep is None:
                 raise ToolError("replayer failed rc=%s: %s" % (rc, err[-2000:]))
             C.absorb_report(ctx, rep, verdict_classes, "%s@%s" % (tag, force))
+    # routing of the arch wrappers / dispatcher (ArchMemchr F-spec): conformance of the vector widths used at every length
+    ar = run_shards(ctx, [("arch", "MC_ArchMemchr", dict(MaxLen=100 if ctx.quick else 200, Emit=True), ["EmitReplay"], 2)])
+    for force in ("avx2", "sse2", "fallback"):
+        replay_cmd(ctx, binp, "replay-route", ar["arch"]["vec_path"], "route@" + force, verdict_classes, extra=["--force", force], env={"MEMCHR_VERIF_FORCE": force})
     executed = []
     miri_vehicles(ctx, [gvec, svec], verdict_classes, executed)
     ctx.counters_note = executed
